@@ -801,6 +801,8 @@ def run_case(
             cost, leak = refsim.mapped_cost(U0, U1, pi, pf, list(before.radixes), list(out.radixes))
             res['mapping'] = [pi, pf]
             cnt('mapped_compare')
+            if pi != sorted(pi) or pf != sorted(pf):
+                cnt('mapped_nontrivial')
             if sorted(pi) != list(range(len(pi))) or sorted(pf) != list(range(len(pf))):
                 witness('mapping_not_permutation', observed=[pi, pf], expected='permutations')
         elif U0.shape != U1.shape:
@@ -900,7 +902,18 @@ def run_batch(arg: tuple[int, str, list[tuple[str, int]]]) -> list[dict[str, Any
                     'opts': {}, 'sig': '', 'changed': False,
                 })
                 continue
-            out.append(run_case(get_comp, drop_comp, entry, circuit, opts, {'seed': seed, 'idx': idx, 'tier': tier}))
+            ident = {'seed': seed, 'idx': idx, 'tier': tier}
+            r = run_case(get_comp, drop_comp, entry, circuit, opts, ident)
+            if r['status'] == 'harness_error' and str(r.get('error', '')).startswith('compile:'):
+                # transient infrastructure failure (server lost): one retry
+                # on a fresh compiler; a second failure stays a harness error
+                drop_comp()
+                first = r['error']
+                r = run_case(get_comp, drop_comp, entry, circuit, opts, ident)
+                r['counters']['harness_retry'] = 1
+                if r['status'] == 'harness_error':
+                    r['error'] = '%s (first attempt: %s)' % (r.get('error'), first)
+            out.append(r)
     finally:
         drop_comp()
     return out
@@ -1962,3 +1975,82 @@ def _unfold_plan(circuit: Circuit, opts: dict) -> Plan:
 
 
 register(Entry('UnfoldPass', ['UnfoldPass'], _unfold_domain, _unfold_plan, 40, 1500, 0.12))
+
+
+# ================================================ exported but not rewriting
+_CTRL = 'control-flow pass: has no contract of its own, its body has (C11)'
+_PRED = 'predicate: reads the circuit, never changes it (C11)'
+_PART = 'partitioner: regroups without rewriting (C08)'
+_MAP = 'placement / layout / routing / mapping bookkeeping (C09)'
+_IO = 'logging / IO / bookkeeping pass that does not change the circuit'
+_SEARCH = 'search-layer component (layer generator / heuristic / frontier), not a pass'
+NOT_REWRITING: dict[str, str] = {
+    'DoWhileLoopPass': _CTRL, 'ForEachBlockPass': _CTRL, 'IfThenElsePass': _CTRL,
+    'WhileLoopPass': _CTRL, 'DoThenDecide': _CTRL, 'ParallelDo': _CTRL,
+    'PassAlias': _CTRL, 'PassGroup': _CTRL, 'ClearAllBlockData': _IO,
+    'NOOPPass': 'does nothing by definition',
+    'PassPredicate': _PRED, 'ChangePredicate': _PRED, 'GateCountPredicate': _PRED,
+    'NotPredicate': _PRED, 'WidthPredicate': _PRED, 'PhysicalPredicate': _PRED,
+    'SinglePhysicalPredicate': _PRED, 'MultiPhysicalPredicate': _PRED,
+    'ManyQuditGatesPredicate': _PRED, 'NoSingleQuditGatesInModel': _PRED,
+    'HasGeneralSingleQuditGate': _PRED, 'ZXGatePredicate': _PRED,
+    'AllConstantSingleQuditGates': _PRED,
+    'ClusteringPartitioner': _PART, 'GreedyPartitioner': _PART, 'ScanPartitioner': _PART,
+    'QuickPartitioner': _PART, 'GTQCPartitioner': _PART, 'TDAGPartitioner': _PART,
+    'SynthesisPass': 'abstract base class of the synthesis passes',
+    'SetTargetPass': 'sets PassData.target, does not touch the circuit (C03)',
+    'RecordStatsPass': _IO, 'SetRandomSeedPass': _IO, 'UpdateDataPass': _IO,
+    'LogPass': _IO, 'LogErrorPass': _IO, 'StructureAnalysisPass': _IO,
+    'LoadCheckpointPass': _IO, 'SaveCheckpointPass': _IO,
+    'SaveIntermediatePass': _IO, 'RestoreIntermediatePass': _IO,
+    'DiscreteLayerGenerator': _SEARCH, 'SimpleLayerGenerator': _SEARCH,
+    'AStarHeuristic': _SEARCH, 'GreedyHeuristic': _SEARCH, 'DijkstraHeuristic': _SEARCH,
+    'Frontier': _SEARCH, 'LayerGenerator': _SEARCH, 'HeuristicFunction': _SEARCH,
+    'SeedLayerGenerator': _SEARCH, 'StairLayerGenerator': _SEARCH,
+    'SingleQuditLayerGenerator': _SEARCH, 'MiddleOutLayerGenerator': _SEARCH,
+    'FourParamGenerator': _SEARCH, 'WideLayerGenerator': _SEARCH,
+    'SetModelPass': _MAP, 'GeneralizedSabreLayoutPass': _MAP, 'GreedyPlacementPass': _MAP,
+    'TrivialPlacementPass': _MAP, 'StaticPlacementPass': _MAP,
+    'GeneralizedSabreRoutingPass': _MAP, 'ApplyPlacement': _MAP, 'PAMLayoutPass': _MAP,
+    'PAMRoutingPass': _MAP, 'EmbedAllPermutationsPass': _MAP,
+    'SubtopologySelectionPass': _MAP, 'ExtractModelConnectivityPass': _MAP,
+    'RestoreModelConnectivityPass': _MAP, 'TagPAMBlockDataPass': _MAP,
+    'CalculatePAMErrorsPass': _MAP, 'UnTagPAMBlockDataPass': _MAP,
+    'PAMVerificationSequence': _MAP,
+    'ExtractMeasurements': 'moves MeasurementPlaceholder pseudo-operations only; no unitary semantics (C01)',
+    'RestoreMeasurements': 'moves MeasurementPlaceholder pseudo-operations only; no unitary semantics (C01)',
+}
+
+
+def covered_names() -> set[str]:
+    out: set[str] = set()
+    for e in CATALOGUE.values():
+        out.update(e.covers)
+    return out
+
+
+def uncovered() -> list[str]:
+    """Names exported by bqskit.passes that are neither in the catalogue nor
+    explicitly listed as not rewriting."""
+    import bqskit.passes as bp
+    cov = covered_names()
+    return sorted({n for n in bp.__all__ if n not in cov and n not in NOT_REWRITING})
+
+
+def unscanned_rewriters() -> list[str]:
+    """BasePass subclasses defined under the anchored rewriting packages that
+    the catalogue does not exercise (even if not exported)."""
+    import importlib
+    import inspect
+    import pkgutil
+    from bqskit.compiler.basepass import BasePass
+    names = set()
+    for pkg in ('bqskit.passes.rules', 'bqskit.passes.retarget', 'bqskit.passes.processing'):
+        m = importlib.import_module(pkg)
+        for info in pkgutil.iter_modules(m.__path__):
+            mod = importlib.import_module(pkg + '.' + info.name)
+            for n, obj in inspect.getmembers(mod, inspect.isclass):
+                if issubclass(obj, BasePass) and obj.__module__ == mod.__name__:
+                    names.add(n)
+    have = set(CATALOGUE) | covered_names()
+    return sorted(n for n in names if n not in have)
